@@ -567,11 +567,6 @@ theorem total_groupRows_sum (g : List (String × String)) (drop : Bool) (M : LMa
   exact rsum_fibres (glabel g) (fun r => rsum (M.cols.map fun c => M.val r c)) _ _ (nodup_dedup _)
     (fun x hx => (mem_dedup _ _).mpr (List.mem_map_of_mem hx))
 
-/-- the sub-matrix that survives `drop_ungrouped` -/
-def restrict (rg cg : List (String × String)) (drop : Bool) (M : LMat) : LMat :=
-  { rows := if rg.isEmpty then M.rows else keptRows rg drop M.rows
-    cols := if cg.isEmpty then M.cols else keptRows cg drop M.cols
-    val := M.val }
 
 theorem total_groupCore_sum (rg cg : List (String × String)) (drop : Bool) (M : LMat) :
     total (groupCore .sum rg cg drop M) = total (restrict rg cg drop M) := by
@@ -596,7 +591,6 @@ theorem restrict_nodrop (rg cg : List (String × String)) (M : LMat) : restrict 
 
 /-! ## `include_other` only filters -/
 
-def knownBoth (e : Edge) : Bool := e.srcNode.isSome && e.tgtNode.isSome
 
 theorem joinRow_false (rows : List CRow) (p : CRow) :
     joinRow false rows p = (joinRow true rows p).filter knownBoth := by
